@@ -115,6 +115,8 @@ def evaluate(ctx, node, fn):
         D = np.asarray(D)
         if not np.all(np.isfinite(D)):
             return out + [("finite", False, {"factor": "L"})]
+        if D.shape != (n, n):
+            return out + [("factor-shapes", False, {"shapes": [list(D.shape)], "n": n})]
         out.append(("lower-triangular", pattern_ok(D, "lower", tol), {"max_above": float(np.abs(np.triu(D, 1)).max(initial=0.0))}))
         err = float(np.abs(D @ D.conj().T - ref.M).max(initial=0.0))
         out.append(("L-LH-equals-A", bool(err <= tol), {"err": err, "tol": tol, "cond": cond}))
@@ -136,6 +138,8 @@ def evaluate(ctx, node, fn):
             return out + [("finite", False, {"factor": name})]
         dens.append(D)
     P_, L_, U_ = dens
+    if any(D.shape != (n, n) for D in dens):
+        return out + [("factor-shapes", False, {"shapes": [list(D.shape) for D in dens], "n": n})]
     out.append(("P-is-permutation", pattern_ok(P_, "perm", 1e-6), None))
     out.append(("lower-triangular", pattern_ok(L_, "lower", tol), {"max_above": float(np.abs(np.triu(L_, 1)).max(initial=0.0))}))
     out.append(("upper-triangular", pattern_ok(U_, "upper", tol), {"max_below": float(np.abs(np.tril(U_, -1)).max(initial=0.0))}))
